@@ -255,3 +255,87 @@ Definition run_listing (mode : imode) (cfg : alloc_cfg) (src : list N) : outcome
     obind (exec_listing mode cfg 1 l) (fun r =>
       Ok (reg_value mode cfg r (cfg_out cfg), existsb (str_eqb (cfg_in cfg)) (written l),
           fold_right insert_named [] r))).
+
+(* ------------------------------------------------------------------------------------------
+   Reading the chain and ops outputs back (the inverse of the two printf formats): used to state
+   that these outputs list exactly the chain and the operations, nothing lost. *)
+Fixpoint drop_spaces (s : list N) : list N :=
+  match s with
+  | c :: r => if (c =? 32)%N then drop_spaces r else s
+  | [] => []
+  end.
+
+(* 0x<hex> or -0x<hex> *)
+Definition read_hex0x (s : list N) : option Z :=
+  match s with
+  | a :: b :: c :: r =>
+      if (a =? 45)%N && (b =? 48)%N && (c =? 120)%N then option_map (fun n => Z.opp (Z.of_N n)) (parse_hexN r)
+      else if (a =? 48)%N && (b =? 120)%N then option_map Z.of_N (parse_hexN (c :: r))
+      else None
+  | _ => None
+  end.
+
+(* "<spaces><n>: <hex>" *)
+Definition read_chain_line (l : list N) : option (nat * Z) :=
+  match split 58%N (drop_spaces l) with
+  | [idx; s :: v] =>
+      if (s =? 32)%N then
+        match parse_nat idx, read_hex0x v with
+        | Some k, Some z => Some (k, z)
+        | _, _ => None
+        end
+      else None
+  | _ => None
+  end.
+
+(* lines must be numbered k, k+1, ... *)
+Fixpoint check_numbered {A} (k : nat) (l : list (nat * A)) : option (list A) :=
+  match l with
+  | [] => Some []
+  | (i, z) :: r => if (i =? k)%nat then option_map (cons z) (check_numbered (S k) r) else None
+  end.
+
+Definition read_chain (s : list N) : option (list Z) :=
+  match drop_last_empty (split nl s) with
+  | Some ls => match map_opt read_chain_line ls with
+               | Some l => check_numbered 1 l
+               | None => None
+               end
+  | None => None
+  end.
+
+Definition nonempty (s : list N) : bool := match s with [] => false | _ => true end.
+
+(* "[<spaces><k>] <spaces><i>+<j><spaces> <hex>" *)
+Definition read_ops_line (l : list N) : option (nat * (op * Z)) :=
+  match l with
+  | c :: r =>
+      if (c =? 91)%N then
+        match split 93%N r with
+        | [idx; rest] =>
+            match split 43%N (drop_spaces rest) with
+            | [i; jr] =>
+                match filter nonempty (split 32%N jr) with
+                | [j; v] =>
+                    match parse_nat (drop_spaces idx), parse_nat i, parse_nat j, read_hex0x v with
+                    | Some k, Some a, Some b, Some z => Some (k, ((a, b), z))
+                    | _, _, _, _ => None
+                    end
+                | _ => None
+                end
+            | _ => None
+            end
+        | _ => None
+        end
+      else None
+  | [] => None
+  end.
+
+Definition read_ops (s : list N) : option (list (op * Z)) :=
+  match drop_last_empty (split nl s) with
+  | Some ls => match map_opt read_ops_line ls with
+               | Some l => check_numbered 0 l
+               | None => None
+               end
+  | None => None
+  end.
